@@ -18,6 +18,7 @@ import (
 	"context"
 	"fmt"
 	"regexp"
+	"slices"
 	"strings"
 	"time"
 
@@ -231,6 +232,7 @@ func (s *Service) Update(ctx context.Context, id string, plugin string, data Con
 		s.logger.Warn(ctx).Msgf("connector plugin changing from %v to %v, "+
 			"this may lead to unexpected behavior and configuration issues.", conn.Plugin, plugin)
 	}
+	oldPlugin, oldConfig, oldUpdatedAt := conn.Plugin, conn.Config, conn.UpdatedAt
 	conn.Plugin = plugin
 	conn.Config = data
 	conn.UpdatedAt = time.Now().UTC()
@@ -238,6 +240,8 @@ func (s *Service) Update(ctx context.Context, id string, plugin string, data Con
 	// persist conn
 	err = s.store.Set(ctx, id, conn)
 	if err != nil {
+		// nothing was persisted, the instance has to stay as it was
+		conn.Plugin, conn.Config, conn.UpdatedAt = oldPlugin, oldConfig, oldUpdatedAt
 		return nil, err
 	}
 
@@ -251,12 +255,14 @@ func (s *Service) AddProcessor(ctx context.Context, connectorID string, processo
 		return nil, err
 	}
 
+	oldIDs, oldUpdatedAt := conn.ProcessorIDs, conn.UpdatedAt
 	conn.ProcessorIDs = append(conn.ProcessorIDs, processorID)
 	conn.UpdatedAt = time.Now().UTC()
 
 	// persist conn
 	err = s.store.Set(ctx, connectorID, conn)
 	if err != nil {
+		conn.ProcessorIDs, conn.UpdatedAt = oldIDs, oldUpdatedAt // nothing was persisted
 		return nil, err
 	}
 
@@ -281,12 +287,15 @@ func (s *Service) RemoveProcessor(ctx context.Context, connectorID string, proce
 		return nil, cerrors.Errorf("%w (ID: %s)", ErrProcessorIDNotFound, processorID)
 	}
 
-	conn.ProcessorIDs = conn.ProcessorIDs[:processorIndex+copy(conn.ProcessorIDs[processorIndex:], conn.ProcessorIDs[processorIndex+1:])]
+	// remove the ID from a copy, so the old list can be put back if saving fails
+	oldIDs, oldUpdatedAt := conn.ProcessorIDs, conn.UpdatedAt
+	conn.ProcessorIDs = slices.Delete(slices.Clone(oldIDs), processorIndex, processorIndex+1)
 	conn.UpdatedAt = time.Now().UTC()
 
 	// persist conn
 	err = s.store.Set(ctx, connectorID, conn)
 	if err != nil {
+		conn.ProcessorIDs, conn.UpdatedAt = oldIDs, oldUpdatedAt // nothing was persisted
 		return nil, err
 	}
 
